@@ -1,5 +1,117 @@
-(* Props/C06.v — placeholder while the proofs are being written (replaced below). *)
-From FluentV Require Import Gen.Extracted.
-From Coq Require Import NArith.
-Theorem C06_budget_const : (MAX_PLACEABLES + 1 < 2 ^ PLACEABLES_BITS)%N.
-Proof. reflexivity. Qed.
+(* Props/C06.v — Formatting is total and bounded.  Statements only; proofs are in
+   Bundle/ResolverTotal.v, Bundle/ResolverBounds.v and Bundle/NumberProofs.v.
+
+   The model (Bundle/ResolverModel.v) is quantified over: the build profile (`overflow_checks`),
+   the registered functions, the text transform, the value formatter, the CLDR rules, the printing
+   of custom types, the two unescape functions, std's float parser, the bundle (any association
+   of ids to message / term / function entries = any set of parsed resources), the caller's
+   arguments, the pattern that is formatted and the memoizer content at the time of the call.
+
+   Hypotheses `values_are_f64` (three of them): the exact-decimal numbers of the model stand for
+   f64 values, i.e. what std's parser returns, what registered functions return and what the
+   caller passes is in the range of an f64 (NumberProofs.v fval_in_f64_range).  In Rust these are
+   facts about the type f64; without them the model's `PluralOperands::try_from(f64).expect(..)`
+   can fail on "numbers" no f64 can hold.                                                     *)
+From FluentV Require Import Base.Bytes Base.Outcome Syntax.Ast Bundle.Args Bundle.Number Bundle.NumberProofs
+  Bundle.ResolverAst Bundle.ResolverModel Bundle.ResolverTotal Gen.Extracted.
+
+Section C06.
+Variable overflow_checks : bool.
+Variable call_function : bytes -> list fvalue -> fargs -> fvalue.
+Variable transform : option (bytes -> bytes).
+Variable formatter : option (fvalue -> option bytes).
+Variable rules : ntype -> rules_fn.
+Variable custom_as_string : bytes -> bytes.
+Variable unescape_write : bytes -> bytes.
+Variable unescape_to_string : bytes -> bytes.
+Variable f64_from_str : bytes -> option fval.
+Variable b : bundle.
+Variable args : option fargs.
+Variable p : pattern.
+Variable intls : intl_cache.
+
+Definition values_are_f64 : Prop :=
+  (forall s v, f64_from_str s = Some v -> fval_in_f64_range v) /\
+  (forall name pos named, value_ok (call_function name pos named)) /\
+  oargs_ok args.
+
+Notation format := (format_pattern overflow_checks call_function transform formatter rules custom_as_string
+                      unescape_write unescape_to_string f64_from_str b args).
+Notation write := (write_pattern overflow_checks call_function transform formatter rules custom_as_string
+                     unescape_write unescape_to_string f64_from_str b args).
+
+(* "formatting returns a string: it never panics, aborts or fails to terminate": with the explicit
+   fuel `fuel_of b p` = 1 + depth of p + (number of patterns in the bundle) x (deepest pattern + 2),
+   both entry points return Done — not Panic (unreachable!/expect/unwrap/u8 overflow), not
+   OutOfFuel — for self-referential, cyclic and exponentially expanding bundles alike. *)
+Theorem C06_total :
+  values_are_f64 ->
+  (exists text sc, format (fuel_of b p) p intls = Done (text, sc)) /\
+  (exists toks sc, write (fuel_of b p) p intls = Done (toks, sc)).
+Proof.
+  intros (H1 & H2 & H3). split.
+  - destruct (format_pattern_total overflow_checks call_function transform formatter rules custom_as_string
+                unescape_write unescape_to_string f64_from_str b args H1 H2 H3 p intls) as (t & sc & E & _); eauto.
+  - destruct (write_pattern_total overflow_checks call_function transform formatter rules custom_as_string
+                unescape_write unescape_to_string f64_from_str b args H1 H2 H3 p intls) as (t & sc & E & _); eauto.
+Qed.
+
+(* "At most 100 placeables are resolved per call": the counter ends at most at MAX_PLACEABLES + 1
+   (the increment that trips the guard), and that fits the u8 — in a debug build (overflow_checks
+   = true) an overflow would be a Panic, which C06_total excludes. *)
+Theorem C06_budget :
+  values_are_f64 ->
+  (MAX_PLACEABLES + 1 < 2 ^ PLACEABLES_BITS)%N /\
+  (forall text sc, format (fuel_of b p) p intls = Done (text, sc) -> (sc_placeables sc <= MAX_PLACEABLES + 1)%N) /\
+  (forall toks sc, write (fuel_of b p) p intls = Done (toks, sc) -> (sc_placeables sc <= MAX_PLACEABLES + 1)%N).
+Proof.
+  intros (H1 & H2 & H3). split; [apply max_placeables_fits|]. split.
+  - intros text sc E.
+    destruct (format_pattern_total overflow_checks call_function transform formatter rules custom_as_string
+                unescape_write unescape_to_string f64_from_str b args H1 H2 H3 p intls) as (t & sc' & E' & P).
+    rewrite E in E'. injection E' as <- <-. eapply Post_new_budget, P.
+  - intros toks sc E.
+    destruct (write_pattern_total overflow_checks call_function transform formatter rules custom_as_string
+                unescape_write unescape_to_string f64_from_str b args H1 H2 H3 p intls) as (t & sc' & E' & P).
+    rewrite E in E'. injection E' as <- <-. eapply Post_new_budget, P.
+Qed.
+
+(* "exceeding the limit … is reported as an error": if the counter reached MAX_PLACEABLES + 1 (or
+   the dirty flag is set) TooManyPlaceables is in the error list. *)
+Theorem C06_limit_error :
+  values_are_f64 ->
+  (forall text sc, format (fuel_of b p) p intls = Done (text, sc) ->
+     (sc_placeables sc = MAX_PLACEABLES + 1)%N \/ sc_dirty sc = true -> In TooManyPlaceables (sc_errors sc)) /\
+  (forall toks sc, write (fuel_of b p) p intls = Done (toks, sc) ->
+     (sc_placeables sc = MAX_PLACEABLES + 1)%N \/ sc_dirty sc = true -> In TooManyPlaceables (sc_errors sc)).
+Proof.
+  intros (H1 & H2 & H3). split.
+  - intros text sc E.
+    destruct (format_pattern_total overflow_checks call_function transform formatter rules custom_as_string
+                unescape_write unescape_to_string f64_from_str b args H1 H2 H3 p intls) as (t & sc' & E' & P).
+    rewrite E in E'. injection E' as <- <-. eapply Post_new_limit, P.
+  - intros toks sc E.
+    destruct (write_pattern_total overflow_checks call_function transform formatter rules custom_as_string
+                unescape_write unescape_to_string f64_from_str b args H1 H2 H3 p intls) as (t & sc' & E' & P).
+    rewrite E in E'. injection E' as <- <-. eapply Post_new_limit, P.
+Qed.
+
+(* "… or meeting a cycle is reported as an error": Scope::track on a pattern that is already being
+   resolved (structurally equal to one on `travelled`) does not enter it; it prints the reference
+   in braces and reports Cyclic.  (Errors are only ever appended: Ctl.ctl_errs.) *)
+Theorem C06_cycle_error :
+  forall fuel q exp sc,
+    pattern_mem q (sc_travelled sc) = true ->
+    track overflow_checks call_function transform formatter rules custom_as_string unescape_write
+      unescape_to_string f64_from_str b args (S fuel) q exp sc =
+    Done (braced (inline_write_error exp), add_error sc Cyclic).
+Proof. intros. now apply track_cyclic. Qed.
+
+End C06.
+
+(* "extreme numeric arguments": the plural-operands conversion never reaches its `expect`, for
+   every value in the range of an f64 and EVERY minimum_fraction_digits (the 10^k arithmetic is
+   checked and saturates). *)
+Theorem C06_operands_total :
+  forall n : fnumber, fval_in_f64_range (n_value n) -> exists ops, fnumber_operands n = Done ops.
+Proof. exact fnumber_operands_total. Qed.
